@@ -147,7 +147,17 @@ func cmdRun(args []string) int {
 		res.Notes = append(res.Notes, "replay of "+*replay)
 		replayFile = *replay
 	}
-	fn(c)
+	func() {
+		defer func() {
+			if r := recover(); r != nil {
+				res.fail("panic:in-process", "a panic escaped an entry point called in-process by the harness", map[string]any{"panic": fmt.Sprint(r)}, nil)
+			}
+		}()
+		fn(c)
+	}()
+	for _, pp := range pollutionPanics {
+		res.fail("panic:pooled-history", "a panic escaped an entry point while an earlier holder's use of the pools was replayed", map[string]any{"panic": pp}, nil)
+	}
 	if c.drv != nil {
 		c.drv.Close()
 	}
